@@ -573,8 +573,8 @@ def c03(ctx):
 def c04(ctx):
     drv = ctx.build()
     models.run_family(ctx, "crash")
-    n, ops = (16, 12) if ctx.quick else (64, 14)
-    outs = run_crash(ctx, drv, n, ops, ctx.seed + 50, depth=2, deep_every=20 if ctx.quick else 8)
+    n, ops = (16, 12) if ctx.quick else (48, 14)
+    outs = run_crash(ctx, drv, n, ops, ctx.seed + 50, depth=2, deep_every=20 if ctx.quick else 10)
     stats = judge_crash(ctx, outs, "c04", "c04")
     crash_cov(ctx, stats, "the C03 image enumeration on multi-key transactions (1-3 keys, rotation on every commit in "
                           "part of the configurations); judged with AtomicInflight=TRUE; a history is attributed to C04 "
@@ -586,9 +586,9 @@ def c04(ctx):
 def c14(ctx):
     drv = ctx.build()
     models.run_family(ctx, "crash_torn")
-    n, ops = (12, 10) if ctx.quick else (32, 12)
+    n, ops = (12, 10) if ctx.quick else (16, 12)
     outs = run_crash(ctx, drv, n, ops, ctx.seed + 90, torn="quick" if ctx.quick else "thorough", depth=2,
-                     deep_every=25 if ctx.quick else 12)
+                     deep_every=25 if ctx.quick else 20)
     stats = judge_crash(ctx, outs, "c14", "c14")
     crash_cov(ctx, stats, "every crash image of the C03 enumeration, and for every file with bytes written after its last "
                           "fsync (tracked from the fs hooks) the file cut back to {synced, synced+1, middle, written-1} "
